@@ -9,8 +9,9 @@ R-C15b  _save_model_proto: the web branch saves with save_as_external_data=False
 R-C15c  standard-mode sidecar removal: an `os.remove(<sidecar>)` outside the web branch deletes the
         file the just-saved model may reference.  It must be (i) control-dependent on a test that reads the
         *saved* proto's `.external_data` — evaluated after onnx.save_model, which is what decides the
-        spill — and (ii) placed after the save.  (Deleting a non-empty but unreferenced sidecar is
-        harmless, so the `getsize == 0` restriction of today's code is not required.)  A spill decision
+        spill — (ii) placed after the save, and (iii) restricted to an empty file unless the external_data test
+        also visits nested (Loop / If body) graphs: onnx.save_model spills body-graph initializers too, so a test of
+        the top-level initializers alone does not show that a non-empty sidecar is unreferenced.  A spill decision
         re-computed by the exporter itself (raw_data length vs. threshold) can disagree with onnx's and
         then deletes a referenced sidecar or keeps a stale one
 """
@@ -133,14 +134,33 @@ def run(res: Results, idx: Index, tier: str) -> None:
         ext = [(e, w) for e, w in conds if _reads_saved_external(e)]
         empty = [(e, w) for e, w in conds if w and isinstance(e, ast.Compare) and any(isinstance(x, ast.Call) and (call_name(x) or "").endswith("getsize") for x in ast.walk(e)) and any(isinstance(x, ast.Constant) and x.value == 0 for x in ast.walk(e)) and all(isinstance(o, ast.Eq) for o in e.ops)]
         after = c.lineno > save_line
-        if ext and after:
-            res.ok("R-C15c", site, key, "removal happens after the save and only when no initializer of the saved proto has external_data" + (" (and only for an empty file)" if empty else ""), s.qualname)
+        # the external_data test usually looks at the top-level initializers only, while onnx.save_model also spills
+        # initializers of Loop / If body graphs: unless the test visits nested graphs, only an EMPTY file is known
+        # to be unreferenced
+        def _visits_nested(e: ast.AST) -> bool:
+            for x in ast.walk(e):
+                if isinstance(x, ast.Attribute) and x.attr in ("attribute", "graphs", "g"):
+                    return True
+                if isinstance(x, ast.Call):
+                    callee = idx.resolve_func(idx.module(UI), call_name(x) or "", scope=s)
+                    if callee is not None and any(isinstance(y, ast.Attribute) and y.attr in ("attribute", "graphs", "g") for y in ast.walk(callee.node)):
+                        return True
+                if isinstance(x, ast.Name):
+                    for d in du_s.defs.get(x.id, []):
+                        if d.value is not None and d.value is not e and any(isinstance(y, ast.Attribute) and y.attr in ("attribute", "graphs", "g") for y in ast.walk(d.value)):
+                            return True
+            return False
+        nested = any(_visits_nested(e) for e, _w in ext)
+        if ext and after and (empty or nested):
+            res.ok("R-C15c", site, key, "removal happens after the save, only when no initializer of the saved proto has external_data, and " + ("only for an empty file" if empty else "the test visits nested graphs"), s.qualname)
         else:
             miss = []
             if not after:
                 miss.append("it runs before the save")
             if not ext:
                 miss.append("it does not depend on the saved proto's external_data (the exporter's own spill estimate can disagree with onnx.save_model)")
+            elif not (empty or nested):
+                miss.append("the external_data test covers top-level initializers only while onnx.save_model also spills initializers of Loop/If bodies, and the removal is not restricted to an empty file: a sidecar referenced from a body graph is deleted")
             res.violation("R-C15c", site, key, "the standard export deletes the sidecar although the saved model may reference it: " + "; ".join(miss), s.qualname)
     if not std_removes:
         res.ok("R-C15c", f"{UI}:{s.node.lineno}", f"{UI}::_save_model_proto::standard-sidecar-removal", "the standard branch never deletes a sidecar", s.qualname)
